@@ -335,40 +335,42 @@ Definition stack_ltb (rs : list res3) (a b : nat * nat * string) : bool :=
         if i1 =? i2 then (if j1 =? j2 then str_ltb (S t1) (S t2) else res_ltb rj1 rj2) else res_ltb ri1 ri2
     | _, _, _, _ => false end end.
 
+(* one neighbour pair of centres: the entry it contributes (if any) and whether a decision fell inside a band *)
+Definition stack_pair (rs : list res3) (cs : list (nat * (vecZ * Z))) (ij : nat * nat) : option (nat * nat * string) * bool :=
+  match nth_error cs (fst ij), nth_error cs (snd ij) with
+  | Some (i, (si, ki)), Some (j, (sj, kj)) =>
+      match nth_error rs i, nth_error rs j with
+      | Some ri, Some rj =>
+          match base_normal ri, base_normal rj with
+          | Some ni, Some nj =>
+              match cos2_atleast cos2_normals_lo cos2_normals_hi ni nj with
+              | No => (None, false)
+              | d1 =>
+                  (* centre_i - centre_j, scaled by ki*kj > 0 *)
+                  let v := vsubZ (scale kj si) (scale ki sj) in
+                  match tri_or (angle_atmost cos2_vector_lo cos2_vector_hi v ni) (angle_atmost cos2_vector_lo cos2_vector_hi v nj) with
+                  | No => (None, match d1 with Near => true | _ => false end)
+                  | d2 =>
+                      let same := (0 <? dotZ ni nj)%Z in
+                      let entry := if res_ltb ri rj then (i, j, if same then "upward" else "inward")%string
+                                   else (j, i, if same then "downward" else "outward")%string in
+                      (Some entry, match d1, d2 with Yes, Yes => false | _, _ => true end)
+                  end
+              end
+          | _, _ => (None, false)
+          end
+      | _, _ => (None, false)
+      end
+  | _, _ => (None, false)
+  end.
+
 Definition find_stackings (rs : list res3) (order : list (nat * nat)) : stack_out :=
   let cs := centres rs in
   if length cs <? 2 then {| so_stackings := []; so_near := false |}
   else
-    let '(out, nr) :=
-      fold_left (fun (acc : list (nat * nat * string) * bool) ij =>
-        let '(out, nr) := acc in
-        match nth_error cs (fst ij), nth_error cs (snd ij) with
-        | Some (i, (si, ki)), Some (j, (sj, kj)) =>
-            match nth_error rs i, nth_error rs j with
-            | Some ri, Some rj =>
-                match base_normal ri, base_normal rj with
-                | Some ni, Some nj =>
-                    match cos2_atleast cos2_normals_lo cos2_normals_hi ni nj with
-                    | No => acc
-                    | d1 =>
-                        (* centre_i - centre_j, scaled by ki*kj > 0 *)
-                        let v := vsubZ (scale kj si) (scale ki sj) in
-                        match tri_or (angle_atmost cos2_vector_lo cos2_vector_hi v ni) (angle_atmost cos2_vector_lo cos2_vector_hi v nj) with
-                        | No => (out, nr || match d1 with Near => true | _ => false end)
-                        | d2 =>
-                            let same := (0 <? dotZ ni nj)%Z in
-                            let entry := if res_ltb ri rj then (i, j, if same then "upward" else "inward")%string
-                                         else (j, i, if same then "downward" else "outward")%string in
-                            (out ++ [entry], nr || match d1, d2 with Yes, Yes => false | _, _ => true end)
-                        end
-                    end
-                | _, _ => acc
-                end
-            | _, _ => acc
-            end
-        | _, _ => acc
-        end) order ([], false) in
-    {| so_stackings := stable_sort (stack_ltb rs) out; so_near := nr |}.
+    let res := map (stack_pair rs cs) order in
+    {| so_stackings := stable_sort (stack_ltb rs) (flat_map (fun r => match fst r with Some e => [e] | None => [] end) res);
+       so_near := existsb snd res |}.
 
 (* the true neighbour sets the KD-tree must return *)
 Definition hbond_neighbours (rs : list res3) : list (nat * nat) :=
